@@ -196,6 +196,7 @@ var c12MapBodies = []string{`"a": 1, "a": 2`, `"a": 1, "b": 2, "a": 3`, `1`, `"a
 
 type c12sweepMutant struct {
 	Key, Line, Src string
+	Control        bool // when go/types accepts it, it is a well-typed control: yaegi must accept it too
 }
 
 // c12SweepProgram: prelude + func sweep() with every form filled with its original operand.
@@ -211,6 +212,7 @@ func c12SweepProgram() (src string, lines []string) {
 		b.WriteString(l)
 	}
 	b.WriteString("\tsink([3]int{0: 1})\n\tsink(map[string]int{\"a\": 1})\n")
+	b.WriteString(c12ConstSubDecl + c12ConstSubHole + c12ConstSubEnd)
 	b.WriteString("}\n\nfunc main() {\n\tprintln(\"MARK main\")\n\tsweep()\n}\n")
 	return b.String(), lines
 }
@@ -243,6 +245,10 @@ func c12SweepMutants() (orig string, muts []c12sweepMutant) {
 		ms := strings.Replace(src, "\tsink(map[string]int{\"a\": 1})\n", l, 1)
 		muts = append(muts, c12sweepMutant{Key: "24-sweep-literal | sweep | map[string]int{" + body + "}", Line: strings.TrimSpace(l), Src: ms})
 	}
+	for _, m := range c12ConstSubMutants(src) {
+		m.Control = true
+		muts = append(muts, m)
+	}
 	return src, muts
 }
 
@@ -251,6 +257,7 @@ func c12SweepMutants() (orig string, muts []c12sweepMutant) {
 type c12richMutant struct {
 	Key, Line, Src string
 	UseStd         bool
+	Control        bool // a mutant that go/types accepts is a well-typed control (not discarded)
 	// filled by c12RichEval
 	RefErr string // "" = go/types accepts (or the source does not parse): discarded
 	Obs    c12Obs
@@ -285,7 +292,7 @@ func c12RichPlan(r *rng, rounds, perProg int) ([]*c12richJob, error) {
 			}
 		}
 		for _, m := range sm {
-			job.Muts = append(job.Muts, &c12richMutant{Key: m.Key, Line: m.Line, Src: m.Src})
+			job.Muts = append(job.Muts, &c12richMutant{Key: m.Key, Line: m.Line, Src: m.Src, Control: m.Control})
 		}
 		jobs = append(jobs, job)
 	}
@@ -337,6 +344,10 @@ func c12RichEval(jobs []*c12richJob) {
 		m := all[i]
 		mk, err := c12TypeCheck(m.Src, false)
 		if err != nil || len(mk.Errs) == 0 {
+			if err == nil && m.Control {
+				// well-typed control: the static passes of yaegi must accept it
+				m.Obs = c12Compile(m.Src, m.UseStd, nil)
+			}
 			return
 		}
 		m.RefErr = mk.Errs[0]
